@@ -11,6 +11,8 @@ From PowHsm Require Import Proofs.SrcEquivProto.
 From PowHsm Require Import Proofs.SrcLiftC02.
 From PowHsm Require Import Gen.SrcM.
 From PowHsm Require Import Proofs.SrcEquivSignProtoM.
+From PowHsm Require Import Proofs.SrcEquivGateM.
+From PowHsm Require Import Proofs.SrcLiftGate.
 Open Scope N_scope.
 
 (* a request the gate rejects is answered {errorcode: code} and the world (script, trace, flag) is untouched: no exchange with the device at all *)
@@ -349,5 +351,21 @@ Theorem C02_source_sign_handler_is_model :
          srcm_HSM2ProtocolLedger___sign fuel cm init self (SrcEquivProtoM.request_with_path req els)
            w = SrcEquivDongleM.mres SrcEquivProtoM.rtuple_pv (op_sign_v5 kind req w).
 Proof. exact (@srcm_sign_handler_ok). Qed.
+
+(* the whole request path of the source (gate, state-threading validation, dispatch over the translated handlers, reply assembly) = the model's handle_request on every request and world *)
+Theorem C02_source_whole_request_path_is_model :
+  forall (keccak : bytes -> bytes) (kind : dongle_kind) (init : pm pv)
+           (cm : string -> pv -> list pv -> pr pv) (fuel : nat) (self : pv) 
+           (request : json) (w : world),
+         SrcEquivProtoM.init_ok kind init ->
+         tx_oracles_ok cm ->
+         path_oracle_ok cm ->
+         varint_oracle_ok cm ->
+         SrcEquivBlockM.block_oracles_ok keccak cm ->
+         SrcEquivBlockM.keccak_wf keccak ->
+         SrcEquivBlockProtoM.fuel_ok kind fuel w ->
+         srcm_HSM2ProtocolLedger____internal_handle_request fuel cm init self (of_json request) w =
+         SrcEquivDongleM.mres of_json (handle_request keccak kind V5 request w).
+Proof. exact (@srcm_handle_request_v5_ok). Qed.
 
 Example C02_nonvacuous : True. Proof. exact I. Qed. (* 24 concrete classifications closed by vm_compute in Proofs/C02.v *)
